@@ -164,7 +164,7 @@ def lincomb_case(rng, dtype, shape, layouts, alias, a, b, poison, full=False):
     for k in range(3):
         if big:
             small = n < BIG
-            g = (rng.choice([1, 2, 3, 5]), rng.randint(0, 6), rng.choice([3, 4] if small else [13, 7, 5]), rng.randint(1, 3))
+            g = (rng.choice([1, 2, 3, 5]), rng.randint(0, 6), rng.choice([3, 4] if small else [7, 5]), rng.randint(1, 3))
             v = closed_form(n, *g).astype(float).reshape(shape)
             if base == 'cx':
                 g2 = (rng.choice([1, 2, 3]), rng.randint(0, 4), rng.choice([2, 3] if small else [7, 5]), 1)
@@ -202,7 +202,7 @@ def lincomb_case(rng, dtype, shape, layouts, alias, a, b, poison, full=False):
     assert res is els[iout]
     after = [np.asarray(e.data) for e in els]
 
-    PAT = 455
+    PAT = 35
     sized = n >= BIG and full is False
     if sized:       # one period suffices if every array (before and after) is periodic
         for arr in before + after:
@@ -219,7 +219,7 @@ def lincomb_case(rng, dtype, shape, layouts, alias, a, b, poison, full=False):
         if is_before and k in poisoned:
             return '(cyc %d [None])' % n
         # after: one period if the array is periodic, the full literal otherwise
-        for period in (12, 455, 455 * 4):
+        for period in (12, 35, 455, 455 * 4):
             pat = flat[:period]
             if np.array_equal(np.resize(pat, n), flat, equal_nan=True):
                 return '(cyc %d %s)' % (n, lits(carrier, pat))
@@ -308,7 +308,8 @@ def lincomb_cases(rng, tier, S):
             for alias in ALIAS:
                 for j, (a, b) in enumerate(rng.sample(pairs, nb)):
                     # the whole 50000-entry arrays are evaluated inside Coq for one case per alias pattern
-                    run((50000,), alias, a, b, want_blas=True, full=(j == 0 and main))
+                    run((50000,), alias, a, b, want_blas=True,
+                        full=(j == 0 and main and (not quick or alias in ('distinct', 'out_is_x1'))))
             if main or not quick:
                 for shape in edge:
                     for alias in ALIAS:
@@ -391,7 +392,7 @@ def rand_leaf_vals(rng, r, kind):
     n = int(np.prod(shape))
     base = DT[dtype][0]
     if n >= PERIODIC:
-        g = (rng.choice([1, 2, 3, 5]), rng.randint(0, 6), rng.choice([3, 4] if n < BIG else [13, 7, 5]), rng.randint(1, 3))
+        g = (rng.choice([1, 2, 3, 5]), rng.randint(0, 6), rng.choice([3, 4] if n < BIG else [7, 5]), rng.randint(1, 3))
         v = closed_form(n, *g).astype(float)
         if kind == 'div':
             v = np.where(v == 0, 2.0, v)
@@ -403,7 +404,7 @@ def rand_leaf_vals(rng, r, kind):
         v = np.array([float(rng.randint(-6, 6)) for _ in range(n)])
     v = v.reshape(shape)
     if base == 'cx' and kind != 'div':
-        w = np.array([float(rng.randint(-2, 2)) for _ in range(n if n < PERIODIC else (12 if n < BIG else 455))])
+        w = np.array([float(rng.randint(-2, 2)) for _ in range(n if n < PERIODIC else (12 if n < BIG else 35))])
         v = v + 1j * np.resize(w, n).reshape(shape)
     return v
 
@@ -501,7 +502,7 @@ def compress(carrier, flat):
     flat = np.asarray(flat).ravel()
     n = flat.size
     if n >= PERIODIC:
-        for period in (1, 12, 455, 1820):
+        for period in (1, 12, 35, 455, 1820):
             if np.array_equal(np.resize(flat[:period], n), flat, equal_nan=True):
                 return '(cyc %d %s)' % (n, lits(carrier, flat[:period]))
     return lits(carrier, flat)
@@ -1585,8 +1586,8 @@ RULE = ('tensor level: space.lincomb(a, x1, b, x2, out) on tensor spaces; every 
         'C / F / strided / mixed layouts, plus a fixed list of >= 50000-entry cases for which BLAS is NOT applicable '
         '(strided out / operand, mixed C/F order, float16, float128) with every alias pattern.  Arrays of >= 100 '
         'entries are periodic (closed form); from 2000 entries on Coq evaluates the model with the true size on one '
-        'period (Python first checks that every buffer before and after the call is periodic) except for one '
-        'whole-array case per alias pattern and main dtype; the same with NaN in every buffer the call must not read and with NaN '
+        'period of 35 entries (Python first checks that every buffer before and after the call is periodic) except '
+        'for whole-array cases of the main dtypes (two alias patterns in quick, all five in thorough); the same with NaN in every buffer the call must not read and with NaN '
         'inside an operand (poisoned carrier option Q).  space level: 32 public operations (lincomb with and without '
         'b, multiply, divide, assign, copy, set_zero, + - * / with element and scalar, reflected and in-place forms, '
         'neg, pos, **=, ** with positive and negative exponents, no-out and element-method forms), every binary '
